@@ -13,6 +13,10 @@ type Emulator struct {
 	code      *deps.Code
 	stateProv StateProvider
 
+	// regWidths maps every register to the greatest width the code reads
+	// or writes the register with.
+	regWidths map[expr.Key]expr.Width
+
 	// State represents the current state of the emulation.
 	//
 	// It's allowed to both read and write values from this state. The only
@@ -46,8 +50,39 @@ func New(
 	return &Emulator{
 		code:      code,
 		stateProv: stateProv,
+		regWidths: regWidths(code),
 		State:     state,
 	}
+}
+
+// regWidths finds the greatest width every register is read or written with
+// anywhere in the code.
+func regWidths(code *deps.Code) map[expr.Key]expr.Width {
+	widths := make(map[expr.Key]expr.Width)
+	widen := func(key expr.Key, w expr.Width) {
+		if w > widths[key] {
+			widths[key] = w
+		}
+	}
+
+	for _, block := range code.Blocks() {
+		for _, ins := range block.Instructions() {
+			for _, ef := range ins.Effects() {
+				if store, ok := ef.(expr.RegStore); ok {
+					widen(store.Key(), store.Width())
+				}
+
+				for _, ex := range exprtransform.Exprs(ef) {
+					loads := exprtransform.FindAll[expr.RegLoad](ex)
+					for _, l := range loads {
+						widen(l.Key(), l.Width())
+					}
+				}
+			}
+		}
+	}
+
+	return widths
 }
 
 // MustIP returns a current value of instruction pointer.
@@ -156,11 +191,19 @@ func (e *Emulator) regValue(key expr.Key, w expr.Width) expr.Const {
 		return val.(expr.Const)
 	}
 
-	val := e.stateProv.Register(key, w)
-	val = val.WithWidth(w)
-	e.State.Regs.Store(key, val, w)
+	// The provider is asked just once per register, so it has to be asked
+	// for the whole register and not just for the part read right now.
+	// Otherwise a later wider read would see zeros in the upper bytes.
+	full := w
+	if codeW := e.regWidths[key]; codeW > full {
+		full = codeW
+	}
 
-	return val
+	val := e.stateProv.Register(key, full)
+	val = val.WithWidth(full)
+	e.State.Regs.Store(key, val, full)
+
+	return val.WithWidth(w)
 }
 
 func (e *Emulator) evalRegsFully(ex expr.Expr, s *Step) expr.Expr {
